@@ -1029,6 +1029,50 @@ theorem adColumn_getElem (base : Nat → Int → ℝ) (logly : Nat → Bool) (ex
   rw [h]
   simp [hk]
 
+/-- **the set of cells a map can ever fill is structural**: whatever the evaluation point (whatever `td`), a cell whose assembled value
+    differs from the initial one is addressed by an entry of the map — the pattern depends on the incidence, not on the values; a value that
+    happens to be exactly 0 at one point does not remove the cell -/
+theorem scatter_changed_addressed {α : Type} (entries : List Entry) (td : Nat → Nat → α) (z : α) (r c : Nat)
+    (h : scatterAssign entries td z r c ≠ z) : ∃ en ∈ entries, en.lhsRow = r ∧ en.lhsCol = c := by
+  by_contra hno
+  apply h
+  unfold scatterAssign
+  rw [foldl_assign td r c z]
+  · split <;> rfl
+  · intro en hen hcell
+    exact absurd ⟨en, hen, hcell⟩ hno
+
+theorem mem_insertNat (x y : Nat) (l : List Nat) : y ∈ insertNat x l ↔ y = x ∨ y ∈ l := by
+  induction l with
+  | nil => simp [insertNat]
+  | cons a as ih =>
+    simp only [insertNat]
+    split
+    · simp
+    · split
+      · rename_i h; subst h; simp
+      · simp [ih]; tauto
+
+/-- `terminate_jacobian`'s cached rows, read off the stored pattern: a row is cached iff SOME wrt-token of the equation, shifted to SOME
+    evaluated period, is a terminal spot — a statement about tokens only; together with `scatter_changed_addressed`: every row that can
+    receive a non-zero terminal derivative at ANY later evaluation point is in the cache built at the FIRST one -/
+theorem terminalRows_mem (allSpots : List Token) (nreg : Nat) (cols : List Int) (eqs : List (List Token)) (r : Nat) :
+    r ∈ terminalRows allSpots nreg cols eqs ↔
+      ∃ en ∈ stackedMap allSpots cols eqs, nreg ≤ en.lhsCol ∧ en.lhsRow = r := by
+  unfold terminalRows
+  have key : ∀ (l : List Nat), r ∈ l.foldr insertNat [] ↔ r ∈ l := by
+    intro l
+    induction l with
+    | nil => simp
+    | cons a as ih => simp [mem_insertNat, ih]
+  rw [key]
+  simp only [List.mem_map, List.mem_filter, decide_eq_true_eq]
+  constructor
+  · rintro ⟨en, ⟨h1, h2⟩, h3⟩
+    exact ⟨en, h1, h2, h3⟩
+  · rintro ⟨en, h1, h2, h3⟩
+    exact ⟨en, ⟨h1, h2⟩, h3⟩
+
 /-! ### parameter variants: locality -/
 
 /-- `systemize()` of a model with several variants: output `k` is the single-variant computation applied to input variant `k` -/
@@ -1281,6 +1325,9 @@ example : stackedMap [(0, 1), (1, 1), (0, 2), (1, 2)] [1, 2] [[(0, 0), (0, -1)],
 example : scatterAssign (staticMap [some (0, 0), some (1, 0)] [([(1, 0), (0, 0)], 0)]) (fun r _ => (10 + r : Nat)) 0 0 0 = 11 := by decide
 
 example : systemizeVariants (fun p : Nat => p * p) [2, 3, 5] = [4, 9, 25] := by decide
+
+/-- two equations, two periods, the second equation reads `x0{+1}`: only its last-period row reaches the terminal spot `(0, 3)` -/
+example : terminalRows [(0, 1), (1, 1), (0, 2), (1, 2), (0, 3)] 4 [1, 2] [[(0, 0)], [(1, 0), (0, 1)]] = [3] := by decide
 
 example : evRun (fun p : Nat => p) (fun p : Nat => 10 * p) 0 [.evalJacob 1, .evalFunc 2, .evalJacob 2, .evalBoth 3]
     = [.jacob 10, .func 2, .jacob 20, .both 3 30] := by decide
